@@ -3,8 +3,6 @@ package main
 // Executes case lines against the real package, one answer line per case.
 
 import (
-	"time"
-	"runtime/debug"
 	"bufio"
 	"bytes"
 	"encoding/hex"
@@ -13,14 +11,17 @@ import (
 	"io"
 	"os"
 	"runtime"
+	"runtime/debug"
 	"strconv"
 	"strings"
+	"sync/atomic"
+	"time"
 
 	og "github.com/kisielk/og-rek"
 )
 
 // classifyWithPos: print an OpcodeError with its position (commands decp / decsp; cases run one at a time).
-var classifyWithPos bool
+var classifyWithPos atomic.Bool
 
 func classify(err error) string {
 	var oe og.OpcodeError
@@ -30,7 +31,7 @@ func classify(err error) string {
 	case errors.Is(err, io.EOF):
 		return "eof"
 	case errors.As(err, &oe):
-		if classifyWithPos {
+		if classifyWithPos.Load() {
 			return "opcode:" + strconv.Itoa(int(oe.Key)) + "@" + strconv.Itoa(oe.Pos)
 		}
 		return "opcode:" + strconv.Itoa(int(oe.Key))
@@ -676,8 +677,10 @@ func handle(line string) string {
 		if len(f) != 4 {
 			return "BADCASE"
 		}
-		classifyWithPos = strings.HasSuffix(f[0], "p")
-		defer func() { classifyWithPos = false }()
+		if strings.HasSuffix(f[0], "p") {
+			classifyWithPos.Store(true)
+			defer classifyWithPos.Store(false)
+		}
 		pd, su, err := parseCfg(f[1])
 		if err != nil {
 			return "BADCASE"
